@@ -4,6 +4,7 @@
 // @include common/prelude.rs
 // @include common/ghost_f32.rs
 // @include common/ghost_f64.rs
+// @include C12/helpers.rs
 use super::*;
 use linfa::traits::Predict;
 use ndarray::{Array1, Array2};
@@ -52,6 +53,25 @@ fn c12_logistic_unit_interval_f64() {
     kani::cover!(x == f64::INFINITY && p == 1.0);
     kani::cover!(x < -1000.0 && x.is_finite());
     kani::cover!(p > 0.0 && p < 1.0);
+}
+
+// a larger decision value never gets a smaller probability (so thresholding the probability is thresholding the score);
+// division axiomatised (C12/helpers.rs): two real dividers compared with each other do not finish.
+// @unit class=complete tier=quick mem=light fns=linfa_logistic::logistic
+#[kani::proof]
+#[kani::unwind(9)]
+#[kani::stub(alloc::fmt::format, fmt_stub)]
+#[kani::stub(f32::exp, ghost_exp32)]
+#[kani::stub(<f32 as core::ops::Div<f32>>::div, c12_div32)]
+fn c12_logistic_monotone_f32() {
+    let (a, b): (f32, f32) = (kani::any(), kani::any());
+    kani::assume(!a.is_nan() && !b.is_nan() && a <= b);
+    let (pa, pb) = (logistic(a), logistic(b));
+    assert!(pa <= pb);
+    assert!(pa >= 0.0 && pb <= 1.0);
+    kani::cover!(a < b && pa < pb);
+    kani::cover!(a < b && pa == pb);
+    kani::cover!(a < 0.0 && b > 0.0);
 }
 
 // log of a probability is never positive (and never NaN)
@@ -124,17 +144,38 @@ fn c12_softmax_len2() {
     kani::cover!(v[0] == v[1]);
 }
 
-// @unit class=bounded tier=quick mem=light bound="len=3, all finite f32" timeout=1200 fns=linfa_logistic::softmax_inplace
+// len 3: the pairwise order clause needs three symbolic f32 divisions compared with each other and does not finish in
+// 20 min (measured); it is split into the range clause (all finite inputs) and the arg-max clause.
+// @unit class=bounded tier=quick mem=light bound="len=3, all finite f32; range and no-NaN clause" timeout=900 fns=linfa_logistic::softmax_inplace
 #[kani::proof]
 #[kani::unwind(7)]
 #[kani::stub(alloc::fmt::format, fmt_stub)]
 #[kani::stub(f32::exp, ghost_exp32)]
-fn c12_softmax_len3() {
+fn c12_softmax_len3_range() {
+    let v: [f32; 3] = kani::any();
+    kani::assume(v[0].is_finite() && v[1].is_finite() && v[2].is_finite());
+    let mut a = Array1::from(v.to_vec());
+    softmax_inplace(&mut a);
+    assert!(a.len() == 3);
+    for i in 0..3 { assert!(!a[i].is_nan() && a[i] >= 0.0 && a[i] <= 1.0); }
+    kani::cover!(v[1] > v[0] && v[0] > v[2]);
+    kani::cover!(v[2] > 1000.0 && v[0] < -1000.0);
+    kani::cover!(a[0] > 0.0 && a[1] > 0.0 && a[2] > 0.0 && a[0] < 1.0);
+}
+
+// @unit class=bounded tier=quick mem=light bound="len=3, all finite f32; order clause, division axiomatised (C12/helpers.rs)" timeout=900 fns=linfa_logistic::softmax_inplace
+#[kani::proof]
+#[kani::unwind(9)]
+#[kani::stub(alloc::fmt::format, fmt_stub)]
+#[kani::stub(f32::exp, ghost_exp32)]
+#[kani::stub(<f32 as core::ops::Div<f32>>::div, c12_div32)]
+fn c12_softmax_len3_order() {
     let v: [f32; 3] = kani::any();
     kani::assume(v[0].is_finite() && v[1].is_finite() && v[2].is_finite());
     let a = c12_softmax_check(&v);
     kani::cover!(v[1] > v[0] && v[0] > v[2] && a[1] > a[0] && a[0] > a[2]);
     kani::cover!(v[2] > 1000.0 && v[0] < -1000.0);
+    kani::cover!(v[0] == v[2] && v[2] > v[1]);
 }
 
 // @unit class=bounded tier=quick mem=light bound="len=1, finite f32" timeout=600 fns=linfa_logistic::softmax_inplace
@@ -187,11 +228,12 @@ fn c12_binary_check(xs: &[f32], w: f32, b: f32, thr: f32) -> (Array1<f32>, Array
     (probs, y)
 }
 
-// @unit class=bounded tier=quick mem=heavy bound="rows=1, 1 feature, all finite f32 weights/inputs, threshold in [0,1]" timeout=900 fns=linfa_logistic::FittedLogisticRegression::predict_inplace,linfa_logistic::FittedLogisticRegression::predict_probabilities,linfa_logistic::logistic
+// @unit class=bounded tier=quick mem=heavy bound="rows=1, 1 feature, all finite f32 weights/inputs, threshold in [0,1]; division axiomatised (C12/helpers.rs)" timeout=900 fns=linfa_logistic::FittedLogisticRegression::predict_inplace,linfa_logistic::FittedLogisticRegression::predict_probabilities,linfa_logistic::logistic
 #[kani::proof]
-#[kani::unwind(7)]
+#[kani::unwind(9)]
 #[kani::stub(alloc::fmt::format, fmt_stub)]
 #[kani::stub(f32::exp, ghost_exp32)]
+#[kani::stub(<f32 as core::ops::Div<f32>>::div, c12_div32)]
 fn c12_binary_decision_rows1() {
     let (x0, w, b, thr): (f32, f32, f32, f32) = (kani::any(), kani::any(), kani::any(), kani::any());
     kani::assume(x0.is_finite() && w.is_finite() && b.is_finite() && thr >= 0.0 && thr <= 1.0);
@@ -213,11 +255,12 @@ fn c12_binary_decision_rows1() {
     kani::cover!(x0 * w == f32::INFINITY);
 }
 
-// @unit class=bounded tier=thorough mem=heavy bound="rows=2, 1 feature, integer-valued inputs/weights in [-8,8], threshold in [0,1]" timeout=1500 fns=linfa_logistic::FittedLogisticRegression::predict_inplace,linfa_logistic::FittedLogisticRegression::predict_probabilities
+// @unit class=bounded tier=thorough mem=heavy bound="rows=2, 1 feature, integer-valued inputs/weights in [-8,8], threshold in [0,1]; division axiomatised (C12/helpers.rs)" timeout=1500 fns=linfa_logistic::FittedLogisticRegression::predict_inplace,linfa_logistic::FittedLogisticRegression::predict_probabilities
 #[kani::proof]
-#[kani::unwind(7)]
+#[kani::unwind(9)]
 #[kani::stub(alloc::fmt::format, fmt_stub)]
 #[kani::stub(f32::exp, ghost_exp32)]
+#[kani::stub(<f32 as core::ops::Div<f32>>::div, c12_div32)]
 fn c12_binary_decision_rows2() {
     let xs = [c12_sf(-8, 8), c12_sf(-8, 8)];
     let (w, b) = (c12_sf(-8, 8), c12_sf(-8, 8));
@@ -257,11 +300,12 @@ fn c12_multi_check(xs: &[f32], w: &[f32], b: &[f32], classes: &[usize]) -> Array
     y
 }
 
-// @unit class=bounded tier=quick mem=heavy bound="rows=1, 1 feature, 3 classes, integer-valued inputs/weights in [-8,8]" timeout=1200 fns=linfa_logistic::MultiFittedLogisticRegression::predict_inplace,linfa_logistic::MultiFittedLogisticRegression::predict_probabilities,linfa_logistic::softmax_inplace
+// @unit class=bounded tier=quick mem=heavy bound="rows=1, 1 feature, 3 classes, integer-valued inputs/weights in [-8,8]; division axiomatised (C12/helpers.rs)" timeout=1200 fns=linfa_logistic::MultiFittedLogisticRegression::predict_inplace,linfa_logistic::MultiFittedLogisticRegression::predict_probabilities,linfa_logistic::softmax_inplace
 #[kani::proof]
-#[kani::unwind(7)]
+#[kani::unwind(9)]
 #[kani::stub(alloc::fmt::format, fmt_stub)]
 #[kani::stub(f32::exp, ghost_exp32)]
+#[kani::stub(<f32 as core::ops::Div<f32>>::div, c12_div32)]
 fn c12_multi_decision_rows1_k3() {
     let xs = [c12_sf(-8, 8)];
     let w = [c12_sf(-8, 8), c12_sf(-8, 8), c12_sf(-8, 8)];
@@ -272,11 +316,12 @@ fn c12_multi_decision_rows1_k3() {
     kani::cover!(y[0] == 33);
 }
 
-// @unit class=bounded tier=thorough mem=heavy bound="rows=2, 1 feature, 2 classes, integer-valued inputs/weights in [-8,8]" timeout=1800 fns=linfa_logistic::MultiFittedLogisticRegression::predict_inplace,linfa_logistic::MultiFittedLogisticRegression::predict_probabilities,linfa_logistic::softmax_inplace
+// @unit class=bounded tier=thorough mem=heavy bound="rows=2, 1 feature, 2 classes, integer-valued inputs/weights in [-8,8]; division axiomatised (C12/helpers.rs)" timeout=1800 fns=linfa_logistic::MultiFittedLogisticRegression::predict_inplace,linfa_logistic::MultiFittedLogisticRegression::predict_probabilities,linfa_logistic::softmax_inplace
 #[kani::proof]
-#[kani::unwind(7)]
+#[kani::unwind(9)]
 #[kani::stub(alloc::fmt::format, fmt_stub)]
 #[kani::stub(f32::exp, ghost_exp32)]
+#[kani::stub(<f32 as core::ops::Div<f32>>::div, c12_div32)]
 fn c12_multi_decision_rows2_k2() {
     let xs = [c12_sf(-8, 8), c12_sf(-8, 8)];
     let w = [c12_sf(-8, 8), c12_sf(-8, 8)];
